@@ -3,6 +3,7 @@
   product test for conditional independence, I-equivalence as a relation.
 -/
 import PgmVerif.Model.Indep
+import PgmVerif.Proofs.CI
 import Mathlib.Tactic.FieldSimp
 import Mathlib.Tactic.Ring
 import Mathlib.Algebra.Order.Field.Rat
@@ -70,6 +71,188 @@ theorem C18_closure_closed (C : List IA) (hfix : sgNew C = []) (a : IA) (ha : a 
     memSame C a = true := by
   unfold sgNew at hfix
   exact foldl_new_nil C (sgStep C) hfix a ha
+
+/-! ### minimality: nothing underivable enters the closure -/
+
+/-- derivability from `S0` by the semi-graphoid rules as the model applies them (symmetry is built into
+    `IA.single` / `IA.pair`, which also try the swapped premises) -/
+inductive Derivable (S0 : List IA) : IA → Prop
+  | base (a : IA) : a ∈ S0 → Derivable S0 a
+  | single (a b : IA) : Derivable S0 a → b ∈ a.single → Derivable S0 b
+  | pair (a b c : IA) : Derivable S0 a → Derivable S0 b → c ∈ IA.pair a b → Derivable S0 c
+
+theorem foldl_new_subset (S : List IA) : ∀ (l acc : List IA) (x : IA),
+    x ∈ l.foldl (fun acc a => if memSame S a || memSame acc a then acc else acc ++ [a]) acc →
+    x ∈ acc ∨ x ∈ l
+  | [], _, _, h => Or.inl h
+  | b :: l, acc, x, h => by
+    simp only [List.foldl_cons] at h
+    split at h
+    · rcases foldl_new_subset S l acc x h with h' | h'
+      · exact Or.inl h'
+      · exact Or.inr (List.mem_cons_of_mem _ h')
+    · rcases foldl_new_subset S l _ x h with h' | h'
+      · rcases List.mem_append.mp h' with h'' | h''
+        · exact Or.inl h''
+        · rw [List.mem_singleton.mp h'']; exact Or.inr List.mem_cons_self
+      · exact Or.inr (List.mem_cons_of_mem _ h')
+
+theorem mem_sgNew (S : List IA) (x : IA) (h : x ∈ sgNew S) : x ∈ sgStep S := by
+  rcases foldl_new_subset S (sgStep S) [] x h with h' | h'
+  · cases h'
+  · exact h'
+
+theorem sgStep_derivable (S0 S : List IA) (hS : ∀ a ∈ S, Derivable S0 a) (x : IA) (hx : x ∈ sgStep S) :
+    Derivable S0 x := by
+  unfold sgStep at hx
+  have hx' := (List.mem_filter.mp hx).1
+  rcases List.mem_append.mp hx' with h | h
+  · obtain ⟨a, ha, hxa⟩ := List.mem_flatMap.mp h
+    exact Derivable.single a x (hS a ha) hxa
+  · obtain ⟨a, ha, h2⟩ := List.mem_flatMap.mp h
+    obtain ⟨b, hb, hxab⟩ := List.mem_flatMap.mp h2
+    exact Derivable.pair a b x (hS a ha) (hS b hb) hxab
+
+/-- **soundness / minimality of the closure**: every assertion the iteration ever adds is derivable from the
+    given assertions by decomposition, weak union, contraction and symmetry — for every fuel, i.e. at every
+    stage of the iteration -/
+theorem C18_closure_sound (S0 : List IA) : ∀ (fuel : Nat) (S : List IA), (∀ a ∈ S, Derivable S0 a) →
+    ∀ a ∈ sgClosure fuel S, Derivable S0 a
+  | 0, _, hS, a, ha => hS a ha
+  | n+1, S, hS, a, ha => by
+    simp only [sgClosure] at ha
+    split at ha
+    · exact hS a ha
+    · rename_i new hnew
+      apply C18_closure_sound S0 n _ _ a ha
+      intro b hb
+      rcases List.mem_append.mp hb with h | h
+      · exact hS b h
+      · exact sgStep_derivable S0 S hS b (mem_sgNew S b h)
+
+theorem C18_closure_sound' (fuel : Nat) (S : List IA) (a : IA) (ha : a ∈ sgClosure fuel S) : Derivable S a :=
+  C18_closure_sound S fuel S (fun b hb => Derivable.base b hb) a ha
+
+/-! ### semantic soundness: whatever the closure contains holds in every distribution that satisfies the input -/
+
+theorem mem_sortDedup (l : List Nat) (v : Nat) : v ∈ sortDedup l ↔ v ∈ l := by
+  unfold sortDedup
+  rw [List.mem_eraseDups, List.mem_mergeSort]
+
+/-- the assertion holds in the joint table `P` over the variables `V` -/
+def IA.Holds (K : Var → Nat) (V : List Var) (P : Asg → Rat) (a : IA) : Prop := CI K V P a.x a.y a.z
+/-- the two sides of an assertion share no variable -/
+def IA.Disj (a : IA) : Prop := ∀ v, v ∈ a.x → v ∉ a.y
+
+theorem IA.holds_swap {K : Var → Nat} {V : List Var} {P : Asg → Rat} {a : IA} (h : a.Holds K V P) :
+    a.swap.Holds K V P := CI_symm K V P a.x a.y a.z h
+theorem IA.disj_swap {a : IA} (h : a.Disj) : a.swap.Disj := fun v hy hx => h v hx hy
+
+theorem shrinkRight_sound (K : Var → Nat) (V : List Var) (P : Asg → Rat) (hP : NonnegB K P) (a b : IA)
+    (ha : a.Holds K V P) (hd : a.Disj) (hb : b ∈ a.shrinkRight) : b.Holds K V P ∧ b.Disj := by
+  unfold IA.shrinkRight at hb
+  split at hb
+  · cases hb
+  · obtain ⟨e, he, hb⟩ := List.mem_flatMap.mp hb
+    have hsub : ∀ v, v ∈ a.y.filter (· != e) → v ∈ a.y := fun v hv => (List.mem_filter.mp hv).1
+    have hdisjB : ∀ v, v ∈ sortDedup a.x → v ∉ sortDedup (a.y.filter (· != e)) := by
+      intro v hx hy
+      exact hd v ((mem_sortDedup _ v).mp hx) (hsub v ((mem_sortDedup _ v).mp hy))
+    simp only [List.mem_cons, List.not_mem_nil, or_false] at hb
+    rcases hb with rfl | rfl
+    · refine ⟨?_, hdisjB⟩
+      unfold IA.Holds IA.mk'
+      exact CI_congr K V P (fun v => (mem_sortDedup _ v).symm) (fun v => (mem_sortDedup _ v).symm)
+        (fun v => (mem_sortDedup _ v).symm)
+        (CI_decomposition K V P a.x a.y (a.y.filter (· != e)) a.z hsub hd ha)
+    · refine ⟨?_, hdisjB⟩
+      unfold IA.Holds IA.mk'
+      have hwu := CI_weak_union K V P hP a.x a.y (a.y.filter (· != e)) [e] a.z (by
+        intro v
+        simp only [List.mem_filter, List.mem_singleton, bne_iff_ne, ne_eq]
+        constructor
+        · intro hv
+          by_cases h' : v = e
+          · exact Or.inr h'
+          · exact Or.inl ⟨hv, h'⟩
+        · rintro (⟨hv, _⟩ | rfl)
+          · exact hv
+          · exact he) hd ha
+      exact CI_congr K V P (fun v => (mem_sortDedup _ v).symm) (fun v => (mem_sortDedup _ v).symm)
+        (fun v => by rw [mem_sortDedup]; simp) hwu
+
+theorem single_sound (K : Var → Nat) (V : List Var) (P : Asg → Rat) (hP : NonnegB K P) (a b : IA)
+    (ha : a.Holds K V P) (hd : a.Disj) (hb : b ∈ a.single) : b.Holds K V P ∧ b.Disj := by
+  unfold IA.single at hb
+  rcases List.mem_append.mp hb with h | h
+  · exact shrinkRight_sound K V P hP a b ha hd h
+  · exact shrinkRight_sound K V P hP a.swap b (IA.holds_swap ha) (IA.disj_swap hd) h
+
+theorem contract1_sound (K : Var → Nat) (V : List Var) (P : Asg → Rat) (hP : NonnegB K P) (a b c : IA)
+    (ha : a.Holds K V P) (hda : a.Disj) (hb : b.Holds K V P) (hdb : b.Disj) (hc : c ∈ IA.contract1 a b) :
+    c.Holds K V P ∧ c.Disj := by
+  unfold IA.contract1 at hc
+  split at hc
+  · rename_i hcond
+    simp only [Bool.and_eq_true, beq_iff_eq] at hcond
+    obtain ⟨⟨hx, hz⟩, _⟩ := hcond
+    rw [List.mem_singleton.mp hc]
+    constructor
+    · unfold IA.Holds IA.mk'
+      have h1 : CI K V P a.x a.y (b.z ++ b.y) := by
+        apply CI_congr K V P (fun _ => Iff.rfl) (fun _ => Iff.rfl) _ ha
+        intro v; rw [← hz, mem_sortDedup]
+      have h2 : CI K V P a.x b.y b.z := by
+        have := hb; unfold IA.Holds at this; rw [← hx] at this; exact this
+      exact CI_congr K V P (fun v => (mem_sortDedup _ v).symm) (fun v => (mem_sortDedup _ v).symm)
+        (fun v => (mem_sortDedup _ v).symm) (CI_contraction K V P hP a.x b.y a.y b.z h1 h2)
+    · intro v hvx hvy
+      simp only [IA.mk'] at hvx hvy
+      rw [mem_sortDedup] at hvx hvy
+      rcases List.mem_append.mp hvy with h | h
+      · exact hda v hvx h
+      · exact hdb v (hx ▸ hvx) h
+  · cases hc
+
+theorem pair_sound (K : Var → Nat) (V : List Var) (P : Asg → Rat) (hP : NonnegB K P) (a b c : IA)
+    (ha : a.Holds K V P) (hda : a.Disj) (hb : b.Holds K V P) (hdb : b.Disj) (hc : c ∈ IA.pair a b) :
+    c.Holds K V P ∧ c.Disj := by
+  unfold IA.pair at hc
+  simp only [List.mem_append] at hc
+  rcases hc with ((h | h) | h) | h
+  · exact contract1_sound K V P hP a b c ha hda hb hdb h
+  · exact contract1_sound K V P hP a b.swap c ha hda (IA.holds_swap hb) (IA.disj_swap hdb) h
+  · exact contract1_sound K V P hP a.swap b c (IA.holds_swap ha) (IA.disj_swap hda) hb hdb h
+  · exact contract1_sound K V P hP a.swap b.swap c (IA.holds_swap ha) (IA.disj_swap hda) (IA.holds_swap hb) (IA.disj_swap hdb) h
+
+theorem derivable_sound (K : Var → Nat) (V : List Var) (P : Asg → Rat) (hP : NonnegB K P)
+    (S0 : List IA) (h0 : ∀ a ∈ S0, a.Holds K V P ∧ a.Disj) (a : IA) (hder : Derivable S0 a) :
+    a.Holds K V P ∧ a.Disj := by
+  induction hder with
+  | base a h => exact h0 a h
+  | single a b _ hb ih => exact single_sound K V P hP a b ih.1 ih.2 hb
+  | pair a b c _ _ hc iha ihb => exact pair_sound K V P hP a b c iha.1 iha.2 ihb.1 ihb.2 hc
+
+/-- **the closure is semantically sound**: let `P` be ANY non-negative table over the variables `V` in which
+    every given assertion holds (X and Y of each being disjoint). Then every assertion that the closure
+    iteration ever produces holds in `P` too — independence reasoning never concludes something false. -/
+theorem C18_closure_semantically_sound (K : Var → Nat) (V : List Var) (P : Asg → Rat) (hP : NonnegB K P)
+    (S0 : List IA) (h0 : ∀ a ∈ S0, a.Holds K V P ∧ a.Disj) (fuel : Nat) (a : IA) (ha : a ∈ sgClosure fuel S0) :
+    a.Holds K V P :=
+  (derivable_sound K V P hP S0 h0 a (C18_closure_sound' fuel S0 a ha)).1
+
+/-- non-vacuity: the uniform table over two binary variables satisfies 0 ⟂ 1 -/
+example : (IA.mk [0] [1] []).Holds (fun _ => 2) [0, 1] (fun _ => 1) ∧ (IA.mk [0] [1] []).Disj ∧
+    NonnegB (fun _ => 2) (fun _ => (1 : Rat)) := by
+  refine ⟨?_, ?_, fun _ _ => by norm_num⟩
+  · intro a _
+    simp [marg, sumOut, sumVar, List.range_succ]
+    norm_num
+  · intro v hx hy
+    have h1 : v = 0 := by simpa using hx
+    have h2 : v = 1 := by simpa using hy
+    rw [h1] at h2
+    exact absurd h2 (by decide)
 
 /-- the product test: P(x,y,z)·P(z) = P(x,z)·P(y,z) is exactly P(x,y | z) = P(x | z)·P(y | z)
     wherever P(z) > 0 (and holds trivially where P(z) = 0 since all terms vanish) -/
